@@ -56,6 +56,7 @@ PAYLOADS = [
     ('path', '../../../{rootname}_q/r2d2'), ('path', '../../../{rootname}.bak/x'), ('path', '../../../{rootname}2'),
     ('path', '../../../../{canary_rel}'), ('path', '/{canary_abs}'), ('path', '..'), ('path', 'a/../../b'),
     ('num', '1e400'), ('num', '-0'), ('num', '007'), ('num', '99999999999999999999999'), ('num', 'nan'), ('num', '0x10'),
+    ('misc', '# kapture format: 1.0'), ('misc', '# kapture format: 1.2'), ('misc', '# kapture format: 0.9'),
     ('misc', ''), ('misc', 'ünï çødé'), ('misc', 'A' * 300), ('misc', '# kapture format: 9.9'), ('misc', '%s%s%n'),
     ('misc', '${HOME}'), ('misc', '`id`'),
 ]
@@ -114,8 +115,15 @@ def gen_case(rng):
         return {'path': 'upgrade', 'base': c, 'pick': rng.randrange(10 ** 6), 'payload': payload, 'pclass': kind,
                 'name_only': name_only}
     opts = kgen.Opts(p_part=0.8, id_pool=3, fancy_ids=False, ts_style='small', max_rows=3, image_pool=4, dtypes=['float32'])
+    dtype_only = rng.random() < 0.35
+    if rng.random() < 0.2:
+        # a stale or foreign version line on ONE feature descriptor file of an otherwise current dataset (what a folder copied
+        # from an older dataset looks like): loading may refuse it, never repair it on disk
+        kind, payload = 'misc', rng.choice(['# kapture format: 1.0', '# kapture format: 1.0', '# kapture format: 1.2', '# kapture format: 0.9'])
+        dtype_only = True
+        opts.force_parts = {'records_camera', 'keypoints'}
     return {'path': 'load', 'd': kgen.gen_dataset(rng, opts), 'pick': rng.randrange(10 ** 6), 'payload': payload, 'pclass': kind,
-            'dtype_only': rng.random() < 0.35}
+            'dtype_only': dtype_only}
 
 
 def cases(rng, tier):
@@ -147,6 +155,9 @@ def mutate_field(root, case, canary):
     cfg = [f for f in files if f.split('/')[-1] in ('keypoints.txt', 'descriptors.txt', 'global_features.txt') and 'reconstruction' in f]
     if case.get('dtype_only') and cfg:
         files = cfg
+        kp_cfg = [f for f in cfg if f.endswith('/keypoints.txt')]
+        if case['payload'].startswith('# kapture format') and kp_cfg and rng.random() < 0.7:
+            files = kp_cfg      # its columns are the same in 1.0 and 1.1: only the version line tells the formats apart
     rel = rng.choice(files)
     p = os.path.join(root, rel)
     lines = open(p).read().split('\n')
@@ -157,7 +168,7 @@ def mutate_field(root, case, canary):
         p = os.path.join(root, rel)
         lines = open(p).read().split('\n')
         data_idx = [i for i, l in enumerate(lines) if l.strip() and not l.startswith('#')]
-    if not data_idx or (case['payload'].startswith('# kapture') and rng.random() < 0.7):
+    if not data_idx or (case['payload'].startswith('# kapture') and (case.get('dtype_only') or rng.random() < 0.7)):
         lines[0] = payload if payload.startswith('#') else '# kapture format: ' + payload
         where = (rel, 0, -1, False)
     else:
